@@ -102,6 +102,13 @@ type Shape struct {
 	ErrnoAlways bool   // with Errno: every request is answered with it (no choice)
 	ExtAck      int    // extended acknowledgements (NETLINK_EXT_ACK): 1 = capped ACK (NLM_F_CAPPED|NLM_F_ACK_TLVS, no request payload echoed) followed by NLMSGERR_ATTR_MSG / ATTR_OFFS attributes, 2 = uncapped with attributes after the echoed request
 	SeqStart    uint32 // first sequence number the transport hands out is SeqStart+1 (0 = 100)
+	// ReplyPids: nlmsg_pid of the successive replies (cycled); LenDelta: nlmsg_len = bytes sent + LenDelta
+	ReplyPids []uint32
+	LenDelta  int
+	// PanicOnClose / PanicOnSendN: the transport panics (a nil dereference in a wrapper, a closed channel): in Close after
+	// the close was counted; in the n-th Send (1-based) before anything is recorded
+	PanicOnClose bool
+	PanicOnSendN int
 	// EchoSeqDelta / EchoFill: what follows the errno word of an acknowledgement (the echoed request) - see Send
 	EchoSeqDelta uint32
 	EchoFill     int
@@ -127,6 +134,8 @@ func (s *Sim) wrapErr(e syscall.Errno) error {
 
 // Sim is the simulated kernel.
 type Sim struct {
+	replyN       int
+	sendCalls    int
 	mu           sync.Mutex
 	Seq          uint32
 	Q            []*Datagram
@@ -187,6 +196,18 @@ func hdr(length int, typ uint16, flags uint16, seq uint32, pid uint32) []byte {
 func (s *Sim) enqueue(kind string, forSeq uint32, b []byte) *Datagram {
 	if s.Shape.ReplyFlags != 0 && len(b) >= HdrLen {
 		binary.LittleEndian.PutUint16(b[6:], binary.LittleEndian.Uint16(b[6:])|s.Shape.ReplyFlags)
+	}
+	if len(b) >= HdrLen {
+		// nlmsg_pid of replies: the kernel writes the socket's port id there - the process id for the first netlink socket
+		// of a process, something else for later ones; layers in between may rewrite it.  nlmsg_len: what the header says
+		// about the message's length next to how many bytes really arrived
+		if n := len(s.Shape.ReplyPids); n > 0 {
+			binary.LittleEndian.PutUint32(b[12:], s.Shape.ReplyPids[s.replyN%n])
+			s.replyN++
+		}
+		if dl := s.Shape.LenDelta; dl != 0 {
+			binary.LittleEndian.PutUint32(b[0:], uint32(len(b)+dl))
+		}
 	}
 	if n := s.Shape.ForceEvents; n > 0 {
 		for i := 0; i < n; i++ {
@@ -261,6 +282,10 @@ func (s *Sim) Send(msg syscall.NetlinkMessage) (uint32, error) {
 	if s.Shape.SeqStart != 0 && !s.seqInit {
 		s.seqInit = true
 		s.Seq = s.Shape.SeqStart
+	}
+	s.sendCalls++
+	if n := s.Shape.PanicOnSendN; n > 0 && s.sendCalls == n {
+		panic("transport: send on closed channel")
 	}
 	s.Seq++
 	req := &Sent{Seq: s.Seq, Type: msg.Header.Type, Flags: msg.Header.Flags, Pid: msg.Header.Pid, Data: append([]byte{}, msg.Data...)}
@@ -551,6 +576,9 @@ func (s *Sim) Close() error {
 	defer s.mu.Unlock()
 	s.Closes++
 	s.Log = append(s.Log, "close")
+	if s.Shape.PanicOnClose && s.Closes == 1 {
+		panic("transport: close of closed channel") // the deferred Unlock runs
+	}
 	if len(s.CloseAnswers) > 0 {
 		// the descriptor is released whatever close(2) returns (Linux); the answer is a choice
 		if e := s.CloseAnswers[s.choose("close-result", len(s.CloseAnswers))]; e != 0 {
